@@ -165,23 +165,80 @@ def case_strategy(maxlen):
                                   'inner': st.one_of(st.just([]), st.just([]), xmlmut.script_strategy(2))})
 
 
-def catalogue():
+def layered_cases():
+    """ciphertext layouts the tool's own --encrypt cannot produce: a second EncryptedData (holding a forged assertion) next to / inside / instead of the genuine plaintext"""
+    out = []
+    for layout in ('genuine+enc(forged)', 'enc(forged)+genuine', 'enc(genuine+enc(forged))', 'enc(enc(forged))', 'two-encrypted-assertions', 'enc(forged)-only'):
+        for sigcopy in (True, False):
+            for setting in range(7):
+                for rsign in (False, True):
+                    out.append({'layout': layout, 'sigcopy': sigcopy, 'setting': setting, 'rsign': rsign})
+    return out
+
+
+def run_layered(case):
+    now = spside.NOW
+    setting = tuple(SETTINGS[case['setting']])
+    sp = spside.sp_for({'want_response_signed': bool(setting[0]), 'want_assertions_signed': bool(setting[1]), 'want_assertions_or_response_signed': bool(setting[2])})
+    clock.set_now(now)
+    r, a = build.standard(now)
+    a = dict(a, signature=build.sig_template(a['id'], 'sha256', ('x509', world.cert_body(1))))
+    genuine = build.sign(build.assertion_xml(a), build.ASSERTION_NODE, a['id'], 1)
+    import re
+    sig = re.search(r'<ds:Signature.*?</ds:Signature>', genuine, re.S).group(0)
+    forged = genuine.replace(sig, sig if case['sigcopy'] else '').replace('subject-0001', xmlmut.EVIL_NAME).replace('>Alice<', '>%s<' % xmlmut.EVIL_VALUE).replace(
+        'ID="%s"' % a['id'], 'ID="%s-forged"' % a['id'], 1)
+    ef = build.encrypt_raw(forged, 2, enc_id='EDF')
+    lay = case['layout']
+    if lay == 'genuine+enc(forged)':
+        inner = [build.encrypt_raw(genuine + ef, 2, typ='Content', enc_id='ED1')]
+    elif lay == 'enc(forged)+genuine':
+        inner = [build.encrypt_raw(ef + genuine, 2, typ='Content', enc_id='ED1')]
+    elif lay == 'enc(genuine+enc(forged))':
+        inner = [build.encrypt_raw(build.encrypt_raw(genuine + ef, 2, typ='Content', enc_id='ED1'), 2, enc_id='ED0')]
+    elif lay == 'enc(enc(forged))':
+        inner = [build.encrypt_raw(ef, 2, enc_id='ED1')]
+    elif lay == 'two-encrypted-assertions':
+        inner = [build.encrypt_raw(genuine, 2, enc_id='ED1'), ef]
+    else:
+        inner = [ef]
+    rr = dict(r, assertions=['<saml:EncryptedAssertion>%s</saml:EncryptedAssertion>' % x for x in inner])
+    if case['rsign']:
+        rr['signature'] = build.sig_template(rr['id'], 'sha256', ('x509', world.cert_body(1)))
+    doc = build.response_xml(rr)
+    if case['rsign']:
+        doc = build.sign(doc, build.RESPONSE_NODE, rr['id'], 1)
+    v = spside.deliver(sp, doc)
+    if v[0] != 'accept':
+        return 'layered|%s|reject' % lay, True
+    oracle(doc, v[1], setting)
+    return 'layered|%s|accept' % lay, True
+
+
+def catalogue(full=False):
     """every XSW construction: target x place x id mode x signature mode, at both levels, for plain and encrypted bases"""
     out = []
     for shape in ('A', 'R', 'RA'):
         for enc in (False, True):
             for target in range(2 if shape == 'RA' else 1):
                 for place in range(7):
-                    for idm in range(3):
-                        for sgm in range(3):
+                    for idm in range(4):
+                        for sgm in range(4):
                             for setting in range(7):
-                                if (place + idm + sgm + setting) % 3 and setting not in (0, 1):
+                                if not full and (place + idm + sgm + setting) % 3 and setting not in (0, 1):
                                     continue        # thin the setting dimension deterministically
-                                step = {'op': 'xsw', 'a': target, 'b': place, 'c': idm, 'd': sgm, 'e': 0}
-                                case = {'shape': shape, 'alg': 'sha256', 'enc': enc, 'setting': setting, 'script': [step], 'inner': []}
-                                out.append(case)
-                                if 'A' in shape and (enc or 'R' in shape):
-                                    out.append(dict(case, script=[], inner=[step]))
+                                if not full and setting not in (0, 1) and (place + 2 * idm + sgm + setting) % 2:
+                                    continue
+                                for strip in (0, 1):
+                                    if strip and sgm == 1:
+                                        continue
+                                    if not full and ((strip and sgm == 2) or (idm == 3 and sgm in (1, 2)) or (sgm == 3 and place in (2, 5, 6) and not strip)):
+                                        continue        # quick tier: combinations that add nothing over their neighbours
+                                    step = {'op': 'xsw', 'a': target, 'b': place, 'c': idm, 'd': sgm, 'e': 0, 'f': strip}
+                                    case = {'shape': shape, 'alg': 'sha256', 'enc': enc, 'setting': setting, 'script': [step], 'inner': []}
+                                    out.append(case)
+                                    if 'A' in shape and (enc or 'R' in shape):
+                                        out.append(dict(case, script=[], inner=[step]))
     return out
 
 
@@ -191,5 +248,6 @@ def known_match(part, case, v):
 
 def parts(tier):
     quick = tier != 'thorough'
-    return [Part('xsw-catalogue', run, cases=catalogue, exhaustive=True),
+    return [Part('xsw-catalogue', run, cases=lambda: catalogue(full=not quick), exhaustive=True),
+            Part('layered-encryption', run_layered, cases=layered_cases, exhaustive=True),
             Part('scripts', run, strategy=lambda: case_strategy(4 if quick else 6), examples=2500 if quick else 60000)]
